@@ -51,6 +51,10 @@ def buildItems (ws : List String) : Option (List (Item String)) := do
 def stepLine (feedBytes : BSt → Qx.Bytes → BSt × List (Ev String)) (s : BSt) (line : String) : BSt × String :=
   match words line with
   | ["reset"] => (binit, "ok")
+  | ["connect"] => let r := stepOp P s .connect; (r.1, s!"started buf={r.1.st.buf.length} tag={r.1.st.openTag.length}")
+  | ["peerLost"] => let r := stepOp P s .peerLost; (r.1, s!"- buf={r.1.st.buf.length} tag={r.1.st.openTag.length}")
+  | ["localDisconnect"] =>
+    let r := stepOp P s .localDisconnect; (r.1, s!"- buf={r.1.st.buf.length} tag={r.1.st.openTag.length}")
   | "b" :: rest =>
     match fromHex (String.join rest) with
     | some bs => let r := feedBytes s bs; (r.1, obs r.1.st r.2)
